@@ -132,7 +132,59 @@ pub fn run(ctx: &Ctx) {
     ctx.assume("the reference layouts are transcribed from the specifications as recalled offline (no network); every constant is commented with its source in refenc.rs");
     let seed = ctx.seed;
     table_list(ctx, "c04.directed", directed_programs(ALL, seed), &oracle, &nontrivial);
+    one_field_sweep(ctx);
     table_pt(ctx, "c04.random", ALL, ctx.scale(8_000, 400_000), &oracle, &nontrivial);
+}
+
+/// One field at a time: programs whose shape comes from a byte string as usual, but in which
+/// every caller-supplied scalar is zero except one, which carries a distinct-byte pattern. A field
+/// landing at the wrong offset, two swapped fields, a wrong width or byte order is then a byte
+/// diff against the reference even where random values would collide.
+fn one_field_sweep(ctx: &Ctx) {
+    use rayon::prelude::*;
+    let rounds = ctx.scale(500, 6_000);
+    let seed = ctx.seed;
+    let jobs: Vec<(Kind, u64)> = ALL.iter().flat_map(|k| (0..rounds / 10).map(move |r| (*k, r))).collect();
+    let res: Vec<(u64, u64, Vec<(Program, Violation)>)> = jobs
+        .par_iter()
+        .map(|(k, r)| {
+            let bytes = lcg_bytes(mix(seed, k.name(), 0x5eed_0000 + *r), 40 + (*r as usize % 5) * 30);
+            let mut s = Choices::new(&bytes);
+            let p0 = gen_program_of(&mut s, *k);
+            let n = s.scalars().min(400);
+            let _ = p0;
+            let mut out = Vec::new();
+            let mut nt = 0u64;
+            for t in 0..n {
+                let mut s = Choices::new_sparse(&bytes, t);
+                let p = gen_program_of(&mut s, *k);
+                nt += 1;
+                for v in guarded("C04", &|p: &Program| oracle(p), &p) {
+                    if out.len() < 3 {
+                        out.push((p.clone(), v));
+                    }
+                }
+            }
+            (n as u64, nt, out)
+        })
+        .collect();
+    let mut evals = 0;
+    let mut nts = 0;
+    let mut seen = std::collections::HashSet::new();
+    for (n, nt, vs) in res {
+        evals += n;
+        nts += nt;
+        for (p, v) in vs {
+            if seen.insert(v.sig()) {
+                ctx.report("c04.one-field", serde_json::json!({"case": serde_json::to_value(&p).unwrap()}), vec![v]);
+            }
+        }
+    }
+    ctx.add_evals(evals);
+    ctx.add_nontrivial_counted(nts);
+    ctx.add_engine("directed:c04.one-field-sweep", evals);
+    ctx.add_class("one-field-sweep-programs", evals);
+    ctx.add_sample(serde_json::json!({"one-field sweep": "all scalars zero except the t-th drawn, which is 0x0807060504030201 truncated to its width (byte arrays: a1 a2 a3 ...)"}));
 }
 
 pub fn replay(case: &serde_json::Value) -> Vec<Violation> {
